@@ -58,8 +58,8 @@ def op_c17_single(st, recipe, with_c=False):
     return c17rec.single_record(recipe, with_c)
 
 
-def op_c17_multi(st, recipe, sim_seed, with_codegen=False):
-    return c17rec.multi_record(recipe, sim_seed, with_codegen)
+def op_c17_multi(st, recipe, sim_seed, with_codegen=False, fixed=False):
+    return c17rec.multi_record(recipe, sim_seed, with_codegen, fixed)
 
 
 def op_set_probe(st, recipe):
